@@ -548,7 +548,9 @@ func (w *World) serveToken(rl *Realm, req *http.Request, ex *Exchange) (*http.Re
 	if lifeWire >= 0 {
 		out["expires_in"] = lifeWire
 	}
-	out["issued_at"] = ex.At.Format(time.RFC3339)
+	// the token server's own clock need not agree with the client's: issued_at is sometimes far off
+	skew := []time.Duration{0, 0, 0, time.Hour, -time.Hour, 90 * time.Second, -2 * time.Second}[w.Rng.IntN(7)]
+	out["issued_at"] = ex.At.Add(skew).Format(time.RFC3339)
 	if host != nil && rl.RefreshProb > 0 && w.Rng.Float64() < rl.RefreshProb {
 		nr := w.newSecretLocked("refresh-token", ex.ForHost)
 		host.Refreshes[nr] = true
